@@ -529,7 +529,7 @@ func c07Exec(ops []string, prop string) vResult {
 						}
 					}
 				}
-				e.s.onEventData(m, &c13Conn{})
+				vDeliverEvent(e.s, m)
 				if e.s.IsClosed() {
 					c.setFail("session-died", "a session closed itself while handling a well-formed event of its peer: "+fmt.Sprint(e.s.shutdownErr))
 				}
@@ -788,7 +788,7 @@ func (c *c07Run) quiesce() {
 					m := p.conn.wr[p.taken]
 					p.taken++
 					p.conn.mu.Unlock()
-					e.s.onEventData(m, &c13Conn{})
+					vDeliverEvent(e.s, m)
 					moved = true
 				}
 			}
